@@ -2,12 +2,12 @@ CONSTANTS
 Mutant = 0
 MaxSends = 2
 MaxOps = 5
-MaxAtts = {2, 4}
-Caps = {3, 5}
+MaxAtts = {3, 6}
+Caps = {5}
 CodeSets = {{14}, {13, 14}}
-BufLimits = {20, 1000}
+BufLimits = {20}
 ThrMaxs = {0, 4}
-Boffs = {1, 2}
+Boffs = {1}
 PBSet = {"none", "p0", "p7", "neg", "bad", "multi"}
 Trigs = {"open", "late"}
 FailCodes = {13, 14}
